@@ -88,3 +88,41 @@ End DendRun.
 
 Definition dend64 ops := dendops F64 f64_of_bits f64_to_bits ops.
 Definition dend32 ops := dendops F32 f32_of_bits f32_to_bits ops.
+
+(* C API (Model/Capi.v): client histories of create/read/scribble/free. *)
+Require Import KV.Model.Capi.
+
+Local Open Scope Z_scope.
+
+Definition render_cdend (d : cdend Z) : list Z :=
+  Z.of_N (c_obs d) :: zn (length (c_steps d)) :: flat_map (render_step (fun z => z)) (c_steps d).
+
+Definition render_cout (o : cout Z) : list Z :=
+  match o with
+  | CHandle h d => 0 :: zn h :: render_cdend d
+  | CValue d => 1 :: render_cdend d
+  | CDone => [2]
+  | CAbort => [3]
+  | CInvalid => [4]
+  end.
+
+(* the double and float entry points produce `cdend Z` (steps as binary64 bit
+   patterns) so that histories may mix them *)
+Definition cstep_any (pf : profile) (st : nat * store Z) (o : list Z) : (nat * store Z) * cout Z :=
+  match o with
+  | 0 :: me :: n :: m =>
+      cstep F64 f64_to_bits pf st (CCreate (method_of_Z me) (map f64_of_bits m) (Z.to_N n))
+  | 5 :: me :: n :: m =>
+      cstep F32 f32_widen_bits pf st (CCreate (method_of_Z me) (map f32_of_bits m) (Z.to_N n))
+  | [1; h] => cstep F64 f64_to_bits pf st (CRead (Z.to_nat h))
+  | [2; h] => cstep F64 f64_to_bits pf st (CScribble (Z.to_nat h))
+  | [3; h] => cstep F64 f64_to_bits pf st (CFree (Z.to_nat h))
+  | _ => (st, CInvalid)
+  end.
+
+Definition capiops (pf : Z) (ops : list (list Z)) : list Z :=
+  let '(_, outs) :=
+    fold_left (fun acc o => let '(st, outs) := acc in
+                            let '(st', out) := cstep_any (profile_of_Z pf) st o in
+                            (st', outs ++ render_cout out ++ [-1]))
+              ops ((0%nat, []), []) in outs.
